@@ -312,7 +312,7 @@ PROPS["C07"] = dict(
           "level and inside a defined-length item of a defined-length sequence, each followed by a sentinel element: Accept consumes exactly "
           "the declared bytes, NextEven one more, Fail reports an error as the first token; the sentinel, ItemEnd and SequenceEnd tokens "
           "come at the right places and the source is consumed exactly to its end",
-          bound="672 streams: 3 strategies x 32 VRs x 7 odd lengths (native enumeration of the compiled code; not a deductive result)",
+          bound="1120 streams: 3 strategies x 32 VRs x 7 odd lengths, plus (Accept / NextEven) the same element alone inside an item whose own declared length is odd (native enumeration of the compiled code; not a deductive result)",
           fns=[("parser/src/dataset/read.rs", "next", r"impl<S>\s+Iterator\s+for\s+DataSetReader")]),
         N("C07.value_readers_native", _W % "c07_positions",
           "on the compiled StatefulDecoder: read_value / read_value_preserved / read_value_bytes for every VR, declared lengths 0-17 and four "
@@ -698,7 +698,7 @@ PROPS["C09"] = dict(
           "--manifest-path /verif/witness/Cargo.toml --bin c09_written_length 2>&1 | grep -E '^(WITNESS|EXHAUSTIVE|error)' | tail -12",
           "tables built by the real builder, written by the real FileMetaTable::write and read back by from_reader: recorded group length == "
           "bytes that follow the group length element == table.information_group_length, and the table read back is equal",
-          bound="972 tables: every presence combination of the optional attributes with even- and odd-length values (native enumeration; survives "
+          bound="1458 tables: every presence combination of the optional attributes (incl. private information with and without a creator UID) with even- and odd-length values (native enumeration; survives "
                 "restructurings of the computation that the extraction cannot follow; not a deductive result)",
           fns=[("object/src/meta.rs", "calculate_information_group_length"), ("object/src/meta.rs", "write", r"impl\s+FileMetaTable")]),
         N("C09.preamble", _WR % "c09_preamble",
